@@ -3,7 +3,7 @@
    unmarshal on every configuration and every document; C13_corr_implies_ok ties them to
    the observation the check compares. *)
 From Errdef Require Import Base.Str Base.Outcome Model.Core Model.Convert Model.Unmarshal Check.UM Check.C13
-  Proofs.C10Proofs Proofs.C13Proofs.
+  Proofs.C10Proofs Proofs.C13Proofs Model.Resolver Model.ResolverGen Proofs.ResolverProofs Proofs.C13Resolver.
 
 Theorem C13_lenient_kind :
   (forall c m k t fs st cs u, u_strict c = false -> u_default c = None -> kind_known c k = false ->
@@ -76,6 +76,25 @@ Print Assumptions C13_cause_failures_are_internal.
 Theorem C13_corr_implies_ok : forall c, UM.corr c = true -> C13.ok c = true.
 Proof. exact corr_implies_ok13. Qed.
 Print Assumptions C13_corr_implies_ok.
+
+(* The kind resolution of the unmarshaler model is package resolver's, as interpreted from resolver/*.go on this
+   run (Model/ResolverGen over Gen/ResolverSrc.v): without a default resolver, or in strict mode, it is
+   ResolveKind of resolver.New(defs...) and a miss is ErrUnknownKind carrying the kind - even when a default
+   exists; with a DefaultResolver in lenient mode it is ResolveKindOrDefault.  (wf: one identity, one definition.) *)
+Theorem C13_kind_resolution_is_the_resolvers : forall c k, wf_defs (map rdef_of (u_defs c)) ->
+  let r := g_new_resolver (map rdef_of (u_defs c)) in
+  match u_default c, u_strict c with
+  | Some dflt, false =>
+      exists d, resolve_kind_u c k = UOk d /\
+                rdef_of d = g_resolve_kind_or_default r (rdef_of dflt) k
+  | _, _ =>
+      match g_resolve_kind r k with
+      | Some rd => exists d, resolve_kind_u c k = UOk d /\ rdef_of d = rd
+      | None => resolve_kind_u c k = UFail [{| fl_class := cls_kind; fl_kind := k; fl_field := "" |}]
+      end
+  end.
+Proof. exact resolve_kind_u_is_resolver. Qed.
+Print Assumptions C13_kind_resolution_is_the_resolvers.
 
 Example C13_example :
   let k := {| uk_key := {| k_id := 1; k_name := "n"; k_ty := 2 |}; uk_ty := FScalar {| s_id := 2; s_kind := KInt |} |} in
